@@ -8,11 +8,21 @@ from .gen import gen, reduce as reducer
 from .run import pmap
 
 
-def gen_batch(ctx, n, features=None, size=1.0, label="prog", neutral_fraction=0.0):
-    """[(index, Program, expected)] – deterministic in (seed, property, index).  Generation is CPU bound python;
-    it is spread over processes."""
+def fixed_rng(*what):
+    """PRNG that does not depend on VERIF_SEED (for corpora whose set of violation keys must be closed)"""
+    import hashlib
+    h = hashlib.sha256(("fixed|" + "|".join(str(w) for w in what)).encode()).digest()
+    return random.Random(int.from_bytes(h[:8], "big"))
+
+
+def gen_batch(ctx, n, features=None, size=1.0, label="prog", neutral_fraction=0.0, fixed=None):
+    """[(index, Program, expected)] – deterministic in (seed, property, index), or in (fixed, index) alone when
+    `fixed` names a seed-independent corpus.  Generation is CPU bound python; it is spread over processes."""
     import concurrent.futures as cf
-    seeds = [ctx.rng(label, i).getrandbits(64) for i in range(n)]
+    if fixed is not None:
+        seeds = [fixed_rng(fixed, label, i).getrandbits(64) for i in range(n)]
+    else:
+        seeds = [ctx.rng(label, i).getrandbits(64) for i in range(n)]
     out = []
     with cf.ProcessPoolExecutor(max_workers=min(16, os.cpu_count() or 4)) as ex:
         jobs = []
